@@ -3,7 +3,7 @@
 -/
 import BioCantor.Proofs.LiftDefs
 import BioCantor.Proofs.RelInterval
-namespace BioCantor.Proofs
+namespace BioCantor.Proofs.Lift
 open BioCantor BioCantor.Spec BioCantor.Model
 
 theorem overlapKernel_iff (a b : Blk) :
@@ -165,4 +165,4 @@ theorem chunkDown_spec (l : Location) (hl : WF l) (w : Blk) (wst : Strand) :
       intro a b hab
       exact hall (a, b) hab
 
-end BioCantor.Proofs
+end BioCantor.Proofs.Lift
